@@ -158,9 +158,9 @@ impl<'a> TypeShareVisitor<'a> {
                 .parsed_data
                 .import_types
                 .iter()
-                .find(|imp| imp.type_name == name)
-                .into_iter()
-                .next()
+                .filter(|imp| imp.type_name == name)
+                // a hash set has no stable order: choose by crate name when several crates match
+                .min_by(|a, b| a.base_crate.cmp(&b.base_crate))
                 .cloned();
 
             // if found.is_none() {
